@@ -1,6 +1,9 @@
 """C18 — cell expansion respects density caps and never touches fixed cells."""
 VARIANT = "san"
-RULE = "see stats"
+RULE = ("see stats; includes an object-history stream (counters hist_*): public mutators and computeRowPlacementArea / "
+        "expandCellsToDensity / expandCellsByFactor / computeCellExpansion interleaved on ONE Circuit object (the expansions "
+        "accumulate), every observation compared with the oracle, with the same call on a freshly rebuilt circuit and, when "
+        "nothing rounds, with the model")
 TIMEOUT = {"quick": 1200, "thorough": 3 * 3600, "search": 1800}
 PARTIAL = [
     "floating-point rounding is not modelled: the model (Model/Expand.lean) and all C18 theorems compute with exact "
@@ -12,6 +15,9 @@ PARTIAL = [
     "carry_bound / expand_not_narrower / byFactor_under_cap assume non-negative cell sizes (the property's domain); "
     "the frame theorems hold for all inputs",
     "the std::sort of the expansion map in computeCellExpansion is not modelled (only a maximum over the map is taken)",
+    "that the expansion calls depend on the public state only (no stale row area or free rows kept inside the object between "
+    "calls) is checked by the object-history stream (random sequences of every public mutator and 3-8 observed calls on one "
+    "object, result for result against a freshly rebuilt circuit), not proved",
 ]
 ASSUMPTIONS = [
     "double/float arithmetic modelled by exact rational arithmetic; (int)/(long long) conversions and the compound "
@@ -26,8 +32,13 @@ LEVEL_TEXT = ("Lean 4 theorems over an exact-rational executable model of expand
               "hit, area <= max(maxDensity*rowArea, area before) for expansion by factors, no-op when dense, expansion "
               "factor = maximum over intersected congested regions); the model is tied to the C++ by an exact "
               "differential stream on dyadic instances where a replica of the floating-point operation sequence proves "
-              "that nothing rounds; on arbitrary instances the property's clauses are evaluated directly on the real code")
+              "that nothing rounds; on arbitrary instances the property's clauses are evaluated directly on the real code; an "
+              "object-history stream interleaves every public mutator (setRows, setupRows with all flag combinations, the "
+              "per-cell setters, setSolution, addNet) with the four observed calls on one Circuit object (same call twice, call "
+              "-> one mutator -> same call, the same side margin within a history) and checks each call against the oracle on "
+              "a snapshot of the public state, result for result against the same call on a freshly constructed circuit "
+              "rebuilt through the public setters, and against the model")
 LEVEL_NOTE = ("Trusted: Lean kernel (axioms propext/Classical.choice/Quot.sound only), the hand-written model's tie to the "
               "code (differential, bounded by the generator), exact rationals for double/float (rounding not modelled), "
               "unbounded Int for C++ int.")
-TECHNIQUE = "Lean 4 proof over Rat (induction over the cell list with the carried area as invariant) + exact model/implementation correspondence on dyadic instances + invariant oracle"
+TECHNIQUE = "Lean 4 proof over Rat (induction over the cell list with the carried area as invariant) + exact model/implementation correspondence on dyadic instances + invariant oracle + object-history stream (metamorphic comparison with a freshly rebuilt circuit)"
